@@ -296,7 +296,7 @@ pub fn run(ctx: &Ctx) -> Outcome {
         return out;
     }
     // (b)
-    let cases = ctx.tier.pick(60_000u32, 6_000_000u32);
+    let cases = ctx.tier.pick(240_000u32, 6_000_000u32);
     let strat = (arb_i128(), arb_offset()).prop_map(|(n, off)| NanoCase { n: n.to_string(), off });
     let rs = par_shards(16, |shard, st| pt_shard(ctx, "nano", shard, cases, &strat, st, |c, st| check_nano(c, st, false)));
     out.absorb_all(rs);
@@ -308,7 +308,7 @@ pub fn run(ctx: &Ctx) -> Outcome {
         f.ns = ns;
         NsArgCase { f, off }
     });
-    let cases = ctx.tier.pick(20_000u32, 1_000_000u32);
+    let cases = ctx.tier.pick(80_000u32, 1_000_000u32);
     let rs = par_shards(8, |shard, st| pt_shard(ctx, "nsarg", 100 + shard, cases, &strat, st, check_nsarg));
     out.absorb_all(rs);
     out
